@@ -253,7 +253,7 @@ def load_skeleton(fn):
         fail(arr_if, "array restoration must have no else")
     if not (len(arr_if.body) == 2 and ast.unparse(arr_if.body[0]) == "arrays = coll['arrays']"
             and isinstance(arr_if.body[1], ast.For)
-            and ast.unparse(arr_if.body[1].body[0]) == "loaded_coll.set_array(k, a)"):
+            and ast.unparse(arr_if.body[1].body[0]) == "loaded_coll.set_array(k, np.array(a)[loaded])"):
         fail(arr_if, "array restoration body")
     out.append("Definition load_arrays (check safety : Z) : bool := %s.\n" % c.tr(arr_if.test))
     # percentage block: if pf > 0: (if pf == 100: raise / elif not tolerant: raise / else: warn) else: print
